@@ -508,6 +508,10 @@ def replay(repo: str, rep: dict) -> dict | None:
     if not case:
         return None
     logging.getLogger('bqskit').setLevel(logging.ERROR)
+    if 'pas' in case:
+        r = _pas_case(tuple(case['pas']))
+        return {'case': case, 'reproduced': bool(r['failures']),
+                'errors': [f['observed'] for f in r['failures']]}
     row = table(case['tier'])[case['row']]
     try:
         errs, scen = run_row(row, case['seed'])
@@ -517,17 +521,93 @@ def replay(repo: str, rep: dict) -> dict | None:
             'errors': errs}
 
 
+def _pas_case(job: tuple) -> dict:
+    """PermutationAwareSynthesisPass keeps its contract with the mappings it
+    reports: circuit == Po(final_mapping)^T . U . Pi(initial_mapping)."""
+    import logging
+    logging.getLogger('bqskit').setLevel(logging.ERROR)
+    from bqskit.passes.synthesis.pas import PermutationAwareSynthesisPass
+    from bqskit.passes.synthesis.qsearch import QSearchSynthesisPass
+    from bqskit.qis.permutation import PermutationMatrix
+    tname, inp, outp, seed = job
+    t0 = time.time()
+    np.random.seed(7 + seed)
+    A = UnitaryMatrix.random(1).numpy
+    B = UnitaryMatrix.random(1).numpy
+    SW = np.eye(4)[[0, 2, 1, 3]]
+    CX = np.eye(4)[[0, 1, 3, 2]]
+    U = {
+        'swap.(A x B)': SW @ np.kron(A, B),
+        'swap.cnot': SW @ CX,
+        '(A x B).cnot(1,0)': np.kron(A, B) @ (SW @ CX @ SW),
+        'haar': UnitaryMatrix.random(2).numpy,
+    }[tname]
+    name = 'PermutationAwareSynthesisPass(input_perm=%s, output_perm=%s)' % (
+        inp, outp)
+    errs: list[str] = []
+    try:
+        c = Circuit.from_unitary(UnitaryMatrix(U))
+        data = PassData(c)
+        data.seed = seed
+        H.install()
+        H.drive(PermutationAwareSynthesisPass(
+            inp, outp, QSearchSynthesisPass()).run(c, data))
+        pi = list(data.initial_mapping)
+        pf = list(data.final_mapping)
+        if sorted(pi) != [0, 1] or sorted(pf) != [0, 1]:
+            errs.append('mappings %s %s' % (pi, pf))
+        else:
+            Pi = np.asarray(PermutationMatrix.from_qubit_location(2, pi))
+            Po = np.asarray(PermutationMatrix.from_qubit_location(2, pf))
+            d = dist(Po.T @ U @ Pi, c.get_unitary().numpy)
+            if d > NUMERIC:
+                errs.append('circuit is at distance %.3g from '
+                            'Po(final %s)^T U Pi(initial %s)' % (d, pf, pi))
+            if not inp and pi != [0, 1]:
+                errs.append('initial mapping %s without input_perm' % pi)
+            if not outp and pf != [0, 1]:
+                errs.append('final mapping %s without output_perm' % pf)
+    except Exception as e:     # noqa: BLE001
+        errs = ['raised %s: %s' % (type(e).__name__, str(e)[:200])]
+    fails = [{
+        'function': name, 'kind': 'ensures', 'clause': errs[0][:300],
+        'scenario': 'target %s, seed %d' % (tname, seed), 'args': '',
+        'observed': '; '.join(errs), 'case': {'pas': list(job)},
+    }] if errs else []
+    return {'name': name, 'evaluated': 1, 'failures': fails,
+            'wall': round(time.time() - t0, 2)}
+
+
+def pas_jobs(seed: int) -> list[tuple]:
+    return [(t, i, o, seed)
+            for t in ('swap.(A x B)', 'swap.cnot', '(A x B).cnot(1,0)',
+                      'haar')
+            for i, o in ((False, True), (True, False), (True, True))]
+
+
 def run(repo: str, tier: str, seed: int, jobs: int) -> dict:
     t0 = time.time()
     rows = table(tier)
     work = [(tier, i, seed) for i, r in enumerate(rows)
             if tier != 'quick' or not r['slow'] or True]
     order = sorted(work, key=lambda w: -rows[w[1]]['slow'])
+    pj = pas_jobs(seed)
     if jobs > 1:
         with mp.get_context('fork').Pool(jobs) as pool:
+            pas_async = pool.map_async(_pas_case, pj, chunksize=1)
             parts = pool.map(_work, order, chunksize=1)
+            pas_parts = pas_async.get()
     else:
         parts = [_work(w) for w in order]
+        pas_parts = [_pas_case(j) for j in pj]
+    merged_pas: dict[str, dict] = {}
+    for p in pas_parts:
+        m = merged_pas.setdefault(p['name'], {
+            'name': p['name'], 'evaluated': 0, 'failures': [], 'wall': 0})
+        m['evaluated'] += p['evaluated']
+        m['failures'] += p['failures']
+        m['wall'] = round(m['wall'] + p['wall'], 2)
+    parts = parts + list(merged_pas.values())
     results = []
     for p in sorted(parts, key=lambda p: p['name']):
         results.append({
@@ -550,6 +630,9 @@ def run(repo: str, tier: str, seed: int, jobs: int) -> dict:
             'and rule-based passes, 1e-6 for numerical ones (success '
             'thresholds 1e-8), 1e-5 for QFAST / QPredict',
             'passes run on a synchronous stand-in for the runtime; LEAP / '
-            'QSearch / PAS are C03 territory and not in the table',
+            'QSearch are C03 territory and not in the table; '
+            'PermutationAwareSynthesisPass is checked in its three modes on '
+            'four two-qubit targets with QSearch inside: the circuit equals '
+            'Po(final)^T U Pi(initial) for the mappings it reports',
         ],
     }
